@@ -11,14 +11,15 @@ RELATED = {"C01": ["C01", "C07"], "C02": ["C02"], "C03": ["C03"], "C04": ["C04",
 RES = os.environ.get("SEEDRES", "/tmp/wt/results.json")
 results = json.load(open(RES)) if os.path.exists(RES) else {}
 only = sys.argv[1:]
-for sd in sorted(glob.glob("/tmp/wt/C*/_seed/C*_*")):
+BASE = os.environ.get("SEEDBASE", "/tmp/wt")
+for sd in sorted(glob.glob(f"{BASE}/C*/_seed/C*_*")):
     name = os.path.basename(sd)
     pid = name.split("_")[0]
     if only and name not in only and pid not in only:
         continue
     if name in results and not only:
         continue
-    wt = f"/tmp/wt/{pid}"
+    wt = f"{BASE}/{pid}"
     if not os.path.exists(os.path.join(sd, "patch.diff")):
         continue
     r = {"seed": name}
@@ -31,7 +32,7 @@ for sd in sorted(glob.glob("/tmp/wt/C*/_seed/C*_*")):
         r["error"] = "patch does not apply"
         results[name] = r
         continue
-    t = subprocess.run(["/venv/bin/python", "-m", "pytest", "-q", "-p", "no:cacheprovider", "--timeout=900"], cwd=wt, capture_output=True, text=True)
+    t = subprocess.run(["/venv/bin/python", "-m", "pytest", "-q", "-p", "no:cacheprovider", "--timeout=900"], cwd=wt, env=env, capture_output=True, text=True)
     r["tests"] = t.stdout.strip().splitlines()[-1] if t.stdout.strip() else "?"
     p = subprocess.run(["/venv/bin/python", os.path.join(sd, "demo.py")], cwd=wt, env=env, capture_output=True, text=True)
     r["demo_patched"] = p.returncode
